@@ -119,7 +119,9 @@ pub fn gen_inputs(rng: &mut Rng, k: usize) -> Vec<Input> {
                         *st = 10 + (fnv64(n.as_bytes()) % 50) as u32;
                     }
                 }
-                if !secs.iter().any(|x: &Section| x.sf == s.sf) {
+                // a tracefile may describe one source file in several sections (they are
+                // aggregated like separate inputs); keep that frequent but not dominant
+                if !secs.iter().any(|x: &Section| x.sf == s.sf) || rng.chance(1, 3) {
                     secs.push(s);
                 }
             }
@@ -325,6 +327,37 @@ pub fn log_to_request(
     n_inputs: usize,
     die_ids: &[String],
 ) -> Result<String, String> {
+    log_to_request_ext(out, threads, rx_main, n_inputs, die_ids, false)
+}
+
+/// Largest number of items sent (send line written before the send) but not yet logged as received
+/// at the moment a further send is announced: with capacity C and N workers it is at most C + N.
+pub fn max_backlog(out: &RunOut) -> usize {
+    let (mut sends, mut recvs, mut mx) = (0usize, 0usize, 0usize);
+    for (_, kind, _) in &out.log {
+        if kind == "send" {
+            mx = mx.max(sends.saturating_sub(recvs));
+            sends += 1;
+        } else if kind == "recv" {
+            recvs += 1;
+        }
+    }
+    mx
+}
+
+/// `prod_died`: the producer thread panicked for a reason other than a failed send (no input
+/// files, unreadable path mapping, …) after its last logged send.
+/// Besides the per-thread event lists the request carries `O:`, the order of the `send` / `recv`
+/// log lines (for the capacity bound), and – if the hooks log them – the events `lock`, `unlock`
+/// (inside `add_results`) and `died_idle` of the consumers.
+pub fn log_to_request_ext(
+    out: &RunOut,
+    threads: usize,
+    rx_main: bool,
+    n_inputs: usize,
+    die_ids: &[String],
+    prod_died: bool,
+) -> Result<String, String> {
     // number the send attempts in producer order; the k-th recv of an id is the k-th send of it
     let mut sends: Vec<&str> = vec![];
     for (_, kind, id) in &out.log {
@@ -367,6 +400,9 @@ pub fn log_to_request(
                     wev[w].push("s".into());
                 }
                 "exit" => wev[w].push("e".into()),
+                "lock" => wev[w].push("l".into()),
+                "unlock" => wev[w].push("u".into()),
+                "died_idle" => wev[w].push("D".into()),
                 _ => {}
             }
         } else if thread == "main" {
@@ -404,6 +440,19 @@ pub fn log_to_request(
     );
     for w in wev {
         req.push_str(&format!(" W:{}", w.join(",")));
+    }
+    let order: String = out
+        .log
+        .iter()
+        .filter_map(|(_, kind, _)| match kind.as_str() {
+            "send" => Some('s'),
+            "recv" => Some('r'),
+            _ => None,
+        })
+        .collect();
+    req.push_str(&format!(" O:{}", order));
+    if prod_died {
+        req.push_str(" PD");
     }
     // main left through process::exit(1) while workers could still be running: an event of a
     // worker that had just taken an element may be missing from the log
